@@ -42,7 +42,8 @@ def run_one(name, tier):
             return out
         t_0 = time.time()
         code, text = sh([os.path.join(ROOT, "check"), prop, "--tier", tier],
-                        env=dict(os.environ, PLOTINK_REPO=tmp))
+                        env=dict(os.environ, PLOTINK_REPO=tmp,
+                                 VERIF_REPLAY_DIR=os.path.join(tmp, "replays")))
         out["wall_s"] = round(time.time() - t_0, 1)
         out["exit"] = code
         out["detected"] = code == 1 and f"VIOLATION property={prop}" in text
